@@ -11,19 +11,23 @@
 //!    the two byte halves, both of which the spec's table calls valid; `slice_ref` over all
 //!    sub-slices between boundaries returns exactly those bytes;
 //!  * differential against std (not modelled): Deref/AsRef/Borrow/Display/Debug/String conversion/
-//!    Hash on every valid vector, Eq/Ord/PartialOrd/Hash-consistency on seeded pairs of valid vectors.
+//!    Hash on every valid vector, Eq/Ord/PartialOrd/Hash-consistency on seeded pairs of valid vectors, and
+//!    exhaustively (every valid vector, every value, every boundary) between handles that SHARE storage:
+//!    split_at halves, slice_ref results and &str sub-slices of the same buffer, against the whole and
+//!    against each other.
 //! `std::str::from_utf8` / `str::split_at` are additionally compared with the spec; a disagreement
 //! between the spec and std is reported as `oracle_disagreements` (a tool problem, not a verdict).
 //!
 //! T: ndjson of observations for TLC (`Utf8Trace.tla`): for every valid vector, every mismatching vector
 //! and a seeded sample of the others: `{"ev":"vec","i":idx,"s":[..],"acc":all ctors accepted,
-//! "rej":all ctors rejected,"split":[mids at which split_at returned on every value]}` each preceded
+//! "rej":all ctors rejected,"split":[mids at which split_at returned on every value],"eqp"/"neqp":[mids at which
+//! the left half compared equal / unequal to the whole],"eqs"/"neqs": same for the right half}` each preceded
 //! by a reset record and followed by an end record (so a predicate violation is attributed to its run).
 //! Last stdout line: the standard JSON summary.
 
 use std::{
     borrow::Borrow,
-    collections::{hash_map::DefaultHasher, HashMap, HashSet},
+    collections::{hash_map::DefaultHasher, BTreeSet, HashMap, HashSet},
     convert::TryFrom,
     hash::{Hash, Hasher},
 };
@@ -125,6 +129,10 @@ fn fallible(s: &[u8]) -> Vec<(&'static str, Option<ByteString>)> {
     out
 }
 
+fn mid_in(b: &[usize], m: usize) -> bool {
+    b.contains(&m)
+}
+
 fn hash_of<T: Hash + ?Sized>(t: &T) -> u64 {
     let mut h = DefaultHasher::new();
     t.hash(&mut h);
@@ -195,6 +203,9 @@ fn main() {
     let mut n_multibyte_valid = 0u64;
     let mut traced = 0u64;
     let mut valid_idx: Vec<usize> = vec![];
+    let mut n_shared_cmp = 0u64;
+    // mids at which the left / right half of split_at compared equal / unequal to the whole (any value)
+    let (mut eqp, mut neqp, mut eqs, mut neqs) = (BTreeSet::new(), BTreeSet::new(), BTreeSet::new(), BTreeSet::new());
 
     for (i, v) in vecs.iter().enumerate() {
         let s = &v.s[..];
@@ -228,6 +239,10 @@ fn main() {
             }
         }
         let mut split_ok_everywhere: Vec<usize> = vec![];
+        eqp.clear();
+        neqp.clear();
+        eqs.clear();
+        neqs.clear();
         if v.v && std_ok {
             n_valid += 1;
             valid_idx.push(i);
@@ -249,6 +264,10 @@ fn main() {
             values.push(("clone", c));
 
             let len = s.len();
+            eqp.clear();
+            neqp.clear();
+            eqs.clear();
+            neqs.clear();
             let mut split_ok_count = vec![0usize; len + 2];
             let nvalues = values.len();
             for (name, bs) in &values {
@@ -277,6 +296,8 @@ fn main() {
                 rep.check(i, &format!("{name}:len"), bs.len() == st.len() && bs.is_empty() == st.is_empty()
                           && bs.chars().count() == st.chars().count(), json!(st.len()), json!(bs.len()));
 
+                // handles that SHARE storage with `bs`: (provenance, lo, hi, handle)
+                let mut handles: Vec<(&'static str, usize, usize, ByteString)> = vec![];
                 // ---- split_at: panics exactly off the spec's boundaries
                 for mid in 0..=len + 1 {
                     let expect_ok = v.b.contains(&mid);
@@ -297,6 +318,10 @@ fn main() {
                                 let halves = a.as_bytes()[..] == s[..mid] && b.as_bytes()[..] == s[mid..];
                                 rep.check(i, &format!("split_at:{name}:{mid}:halves"), halves,
                                           json!([s[..mid], s[mid..]]), json!([a.as_bytes()[..], b.as_bytes()[..]]));
+                                if halves && expect_ok {
+                                    handles.push(("left", 0, mid, a.clone()));
+                                    handles.push(("right", mid, len, b.clone()));
+                                }
                             }
                             for (h, part) in [("left", &a), ("right", &b)] {
                                 match spec_says(&part.as_bytes()[..]) {
@@ -324,8 +349,12 @@ fn main() {
                         n_slice_refs += 1;
                         match catch(|| bs.slice_ref(sub)) {
                             Ok(r) => {
-                                rep.check(i, &format!("slice_ref:{name}:{lo}..{hi}"), r.as_bytes()[..] == s[lo..hi],
+                                let same = r.as_bytes()[..] == s[lo..hi];
+                                rep.check(i, &format!("slice_ref:{name}:{lo}..{hi}"), same,
                                           json!(s[lo..hi]), json!(r.as_bytes()[..]));
+                                if same {
+                                    handles.push(("slice", lo, hi, r.clone()));
+                                }
                                 if let Some(ok) = spec_says(&r.as_bytes()[..]) {
                                     rep.check(i, &format!("slice_ref:{name}:{lo}..{hi}:valid"), ok,
                                               json!("valid UTF-8"), json!(r.as_bytes()[..]));
@@ -333,6 +362,51 @@ fn main() {
                             }
                             Err(msg) => rep.check(i, &format!("slice_ref:{name}:{lo}..{hi}"), false,
                                                   json!(s[lo..hi]), json!({"panic": msg})),
+                        }
+                    }
+                }
+                // ---- comparisons between handles that share one buffer (split halves, slice_ref results,
+                // &str sub-slices of the same ByteString) and the whole: ==, !=, Ord, PartialOrd, Hash
+                // consistency must be what the same operation on the equivalent str gives (differential)
+                let whole: &str = bs;
+                let hw = (hash_of(bs), hash_of(st));
+                let hh: Vec<(u64, u64)> = handles.iter().map(|(_, lo, hi, h)| (hash_of(h), hash_of(&st[*lo..*hi]))).collect();
+                for (k, (prov, lo, hi, h)) in handles.iter().enumerate() {
+                    let (lo, hi) = (*lo, *hi);
+                    let sh = &st[lo..hi];
+                    let step = format!("shared:{name}:{prov}:{lo}..{hi}");
+                    let want = sh == st;
+                    n_shared_cmp += 1;
+                    // handle vs whole, both directions, and vs borrowed sub-slices of the same buffer
+                    let got = [h == bs, bs == h, !(h != bs), *h == *whole, h == &whole, *bs == whole[lo..hi],
+                               bs == &&whole[lo..hi], *h == whole[lo..hi]];
+                    let wants = [want, want, want, want, want, want, want, true];
+                    rep.check(i, &format!("{step}:eq_whole"), got == wants, json!(wants), json!(got));
+                    rep.check(i, &format!("{step}:ord_whole"),
+                              h.cmp(bs) == sh.cmp(st) && bs.cmp(h) == st.cmp(sh) && h.partial_cmp(bs) == sh.partial_cmp(st),
+                              json!(format!("{:?}", sh.cmp(st))), json!(format!("{:?}", h.cmp(bs))));
+                    rep.check(i, &format!("{step}:hash_whole"),
+                              (hh[k].0 == hw.0) == (hh[k].1 == hw.1) && (!(h == bs) || hh[k].0 == hw.0),
+                              json!(hh[k].1 == hw.1), json!(hh[k].0 == hw.0));
+                    if prov == &"left" && mid_in(&v.b, hi) {
+                        if h == bs { eqp.insert(hi); } else { neqp.insert(hi); }
+                    }
+                    if prov == &"right" && mid_in(&v.b, lo) {
+                        if h == bs { eqs.insert(lo); } else { neqs.insert(lo); }
+                    }
+                    // handle vs every other handle of the same buffer
+                    for (k2, (prov2, lo2, hi2, h2)) in handles.iter().enumerate().skip(k + 1) {
+                        let sh2 = &st[*lo2..*hi2];
+                        n_shared_cmp += 1;
+                        let ok = (h == h2) == (sh == sh2) && (h2 == h) == (sh == sh2) && (h != h2) == (sh != sh2)
+                            && h.cmp(h2) == sh.cmp(sh2) && h.partial_cmp(h2) == sh.partial_cmp(sh2)
+                            && (hh[k].0 == hh[k2].0) == (hh[k].1 == hh[k2].1) && (!(h == h2) || hh[k].0 == hh[k2].0);
+                        if !ok {
+                            rep.check(i, &format!("{step}:vs:{prov2}:{lo2}..{hi2}"), false,
+                                      json!({"eq": sh == sh2, "cmp": format!("{:?}", sh.cmp(sh2))}),
+                                      json!({"eq": h == h2, "cmp": format!("{:?}", h.cmp(h2)), "hash_eq": hh[k].0 == hh[k2].0}));
+                        } else {
+                            rep.steps += 1;
                         }
                     }
                 }
@@ -357,7 +431,8 @@ fn main() {
         let flagged = rep.mismatches > before;
         if v.v || flagged || (rng.next() & 0xFFFF) < sample_p as u64 {
             trace.emit(&json!({"ev": "reset", "i": i}));
-            trace.emit(&json!({"ev": "vec", "i": i, "s": s, "acc": all_acc, "rej": all_rej, "split": split_ok_everywhere}));
+            trace.emit(&json!({"ev": "vec", "i": i, "s": s, "acc": all_acc, "rej": all_rej, "split": split_ok_everywhere,
+                               "eqp": eqp, "neqp": neqp, "eqs": eqs, "neqs": neqs}));
             trace.emit(&json!({"ev": "end", "i": i}));
             traced += 1;
         }
@@ -427,7 +502,7 @@ fn main() {
             "ctor_accepts": n_accepts, "ctor_rejects": n_rejects,
             "split_calls": n_split_calls, "split_panics": n_split_panics, "slice_refs": n_slice_refs,
             "foreign_slice_ref_panics": n_foreign_panics, "table_miss": n_table_miss,
-            "pairs": n_pairs, "traced": traced,
+            "pairs": n_pairs, "traced": traced, "shared_comparisons": n_shared_cmp,
         })
     );
 }
